@@ -83,6 +83,9 @@ func VH_C07_Open() {
 	} else {
 		verifrt.Reach("not opened")
 		verifrt.Assert(te.table == oldTable && te.table.State.GameCount == gc0 && te.table.State.Status == status0, "no hand opened: table, status and game count stay")
+		// liveness of the retry: refused position computations (at most R < 10 here) are retried,
+		// so a table that is neither closed, released, mid-hand, without blinds nor on a break opens
+		verifrt.Assert(closed || te.isReleased || running || !blindsSet || breaking, "a refused position computation is retried: the hand opens once the refusals stop (within ten retries)")
 	}
 	verifrt.Reach("end")
 }
